@@ -203,6 +203,7 @@ class Gen:
             "wrap": (0.08, 0.42, 0.48, 0.02),
             "power": (0.55, 0.15, 0.28, 0.02),
             "fuzz": (0.45, 0.35, 0.18, 0.02),
+            "drop": (0.12, 0.45, 0.42, 0.01),
         }[profile]
         for _ in range(n_ops):
             k = r.random()
@@ -212,6 +213,15 @@ class Gen:
                     v = r.choice(["POWERON", "POWEROFF", "POWERON", "RXTUNE", "TXTUNE", "SETFH", None])
                     txt = self.cmd_text(v, dict(VERBS).get(v, 0) if v else None) if v else self.cmd_text()
                     C(i, txt)
+                elif profile == "drop":
+                    v = r.choice(["FAKE_DROP", "FAKE_DROP", "FAKE_DROP", "RFMUTE", "SETFORMAT"])
+                    if v == "FAKE_DROP":
+                        a = [str(r.choice([0, 1, 2, 3, 5, -1]))] + ([str(r.choice([1, 2, 3, 0, -1]))] if r.random() < 0.6 else [])
+                        C(i, "CMD FAKE_DROP %s\0" % " ".join(a))
+                    elif v == "RFMUTE":
+                        C(i, "CMD RFMUTE %d\0" % r.choice([0, 1, 1, 2, -1]))
+                    else:
+                        C(i, "CMD SETFORMAT %d\0" % r.choice([0, 1]))
                 elif profile == "traffic" or profile == "wrap":
                     v = r.choice(["FAKE_DROP", "FAKE_DROP", "RFMUTE", "SETTA", "FAKE_TOA", "FAKE_RSSI", "FAKE_CI",
                                   "SETPOWER", "SETFORMAT", "POWEROFF", "POWERON", None])
@@ -225,6 +235,8 @@ class Gen:
             elif k < weights[0] + weights[1]:
                 base = clk if clk is not None else 0
                 d = r.choice([0, 0, 1, 1, 2, 2, 3, 5, -1, -2, 10, 1000, H // 2 - 1, H // 2, H // 2 + 1, -H // 2])
+                if profile == "drop":
+                    d = r.choice([0, 1, 1, 1, 2, 2, 3])
                 fn = (base + d) % H if (r.random() < 0.97 or self.clean) else r.choice([H, H + 1, 2 ** 32 - 1])
                 v = ver[i] if r.random() < 0.9 else 1 - ver[i]
                 ops.append("D %d %s" % (i, hx(self.tx_dgram(fn, v, 0.3 if profile == "fuzz" else 0.06))))
